@@ -113,7 +113,7 @@ def run(ctx):
     ctx.set("authenticate_calls_recorded", sum(1 for x in recs for e in x["events"] if e["op"] == "auth"))
     ctx.set("reloads", sum(1 for x in recs for e in x["events"] if e["op"] == "reload"))
     ctx.set("drift_events", len(drift))
-    ctx.set("exhaustive", True)
+    ctx.set("exhaustive", False)  # WebRTC sessions over ICE are a subset of their scenario space in both tiers
     if drift:
         ctx.note("%d scenarios differ from layer 1 without violating the statement (DRIFT)" % len(drift))
     if sum(1 for x in recs if x["attached"]) < 10:
